@@ -94,9 +94,9 @@ PROPS = {
     "C04": {
         "lean_modules": ["WP.Props.C04"],
         "lean_support": ["WP.Model.Access"],
-        "families": [("posauth", 20000, 200000), ("hist", 12000, 300000)],
+        "families": [("posauth", 20000, 200000), ("xadm", 8000, 400000), ("hist", 12000, 300000)],
         "history": True,
-        "rule": "hist (ops xliq, xsub): the REAL liquidity instructions through the program's entrypoint with the position owner signing / a stranger signing / the owner not signing, and every account slot of swap_v2 and increase_liquidity_v2 (incl. the signer) replaced by a look-alike: unauthorized variants must be refused and change nothing; posauth: every combination of (owner, delegate present/absent/which, delegated amount 0/1/2/5, token amount, authority key, signer flag) "
+        "rule": "xadm: 19 settings instructions (fee / protocol fee rates of pools, fee tiers and adaptive fee tiers, every set-authority instruction, adaptive-fee constants, config feature flag, config-extension and token-badge settings) executed through the program's REAL entrypoint on a world of two configs with different authorities: everything right / authority not signing / a stranger signing / the other config's authority with this config's target account or another role's authority / value out of bounds / target account of the other config; the op line carries the environment read from the real accounts, the Lean model answers with `accepts` on the REGENERATED account table (acceptsB_iff) and the setter's bound, so the translated tables and the semantics given to Signer / address / has_one / constraint are compared with Anchor's generated validation; oracle: only the all-right variant may succeed and then only the target account changes; hist (ops xliq, xsub): the REAL liquidity instructions through the program's entrypoint with the position owner signing / a stranger signing / the owner not signing, and every account slot of swap_v2 and increase_liquidity_v2 (incl. the signer) replaced by a look-alike: unauthorized variants must be refused and change nothing; posauth: every combination of (owner, delegate present/absent/which, delegated amount 0/1/2/5, token amount, authority key, signer flag) "
                 "on real spl-token account bytes through verify_position_authority, verify_position_authority_interface and pino_verify_position_authority "
                 "(the space has 1920 points; sampled with replacement far beyond that); non-trivial = an accepted combination; "
                 "the instruction tables (63 accounts structs, 6 Pinocchio prologues, handler guards, routing table, #[program] list) are regenerated and checked against the requirement tables by `decide`",
@@ -119,9 +119,9 @@ PROPS = {
     "C15": {
         "lean_modules": ["WP.Props.C15"],
         "lean_support": ["WP.Model.Access"],
-        "families": [("ldta", 0, 0), ("posauth", 5000, 50000), ("hist", 12000, 300000)],
+        "families": [("ldta", 0, 0), ("posauth", 5000, 50000), ("xadm", 8000, 400000), ("hist", 12000, 300000)],
         "history": True,
-        "rule": "hist (op xsub): every account slot of the real swap_v2 and increase_liquidity_v2 instructions replaced by a look-alike of the same owner and type (vault / tick array / oracle of another pool over the same mints, another mint, another position and its token account, the other token program, a stranger as signer): the instruction must be refused and change nothing; ldta: all 64 combinations of (owner ok, writable, discriminator fixed/dynamic/other/short, whirlpool field ok, mutable load) through the Anchor and the "
+        "rule": "xadm: 19 settings instructions (fee / protocol fee rates of pools, fee tiers and adaptive fee tiers, every set-authority instruction, adaptive-fee constants, config feature flag, config-extension and token-badge settings) executed through the program's REAL entrypoint on a world of two configs with different authorities: everything right / authority not signing / a stranger signing / the other config's authority with this config's target account or another role's authority / value out of bounds / target account of the other config; the op line carries the environment read from the real accounts, the Lean model answers with `accepts` on the REGENERATED account table (acceptsB_iff) and the setter's bound, so the translated tables and the semantics given to Signer / address / has_one / constraint are compared with Anchor's generated validation; oracle: only the all-right variant may succeed and then only the target account changes; hist (op xsub): every account slot of the real swap_v2 and increase_liquidity_v2 instructions replaced by a look-alike of the same owner and type (vault / tick array / oracle of another pool over the same mints, another mint, another position and its token account, the other token program, a stranger as signer): the instruction must be refused and change nothing; ldta: all 64 combinations of (owner ok, writable, discriminator fixed/dynamic/other/short, whirlpool field ok, mutable load) through the Anchor and the "
                 "Pinocchio tick-array loaders (exhaustive); the slot table of the 15 fund-moving accounts structs and 6 Pinocchio prologues is regenerated and checked by `decide`",
         "trusted": ["as C04; the sparse-swap builder's account checks (PDA, ownership) are part of C10's family; token-program-side checks (owner accounts) are Solana's"],
     },
@@ -206,8 +206,8 @@ PROPS = {
     "C19": {
         "lean_modules": ["WP.Props.C19"],
         "lean_support": [],
-        "families": [("mint", 40000, 2000000), ("badge", 0, 0), ("setfee", 10000, 200000), ("afc", 30000, 1000000), ("initpool", 20000, 500000)],
-        "rule": "mint: is_supported_token_mint on synthesized SPL / Token-2022 mint accounts (real packed base state; TLV with 0-4 entries drawn from supported, badge-gated, "
+        "families": [("mint", 40000, 2000000), ("badge", 0, 0), ("setfee", 10000, 200000), ("afc", 30000, 1000000), ("initpool", 20000, 500000), ("xadm", 8000, 400000)],
+        "rule": "xadm: 19 settings instructions (fee / protocol fee rates of pools, fee tiers and adaptive fee tiers, every set-authority instruction, adaptive-fee constants, config feature flag, config-extension and token-badge settings) executed through the program's REAL entrypoint on a world of two configs with different authorities: everything right / authority not signing / a stranger signing / the other config's authority with this config's target account or another role's authority / value out of bounds / target account of the other config; the op line carries the environment read from the real accounts, the Lean model answers with `accepts` on the REGENERATED account table (acceptsB_iff) and the setter's bound, so the translated tables and the semantics given to Signer / address / has_one / constraint are compared with Anchor's generated validation; oracle: only the all-right variant may succeed and then only the target account changes; mint: is_supported_token_mint on synthesized SPL / Token-2022 mint accounts (real packed base state; TLV with 0-4 entries drawn from supported, badge-gated, "
                 "never-supported, unknown (>27) and zero type numbers, DefaultAccountState values 0/1/2 and wrong lengths, random truncation and trailing bytes; freeze authority, native mint, badge on/off); "
                 "badge: all 8 combinations; setfee: all five bounded setters on boundary and random values; afc: validate_constants on boundary-biased constants; initpool: Whirlpool::initialize; "
                 "non-trivial = an accepted input",
